@@ -107,7 +107,8 @@ class C20(Property):
             kind = rng.choice(["plain", "plain", "corpus", "value-loss",
                                "damaged", "not-encodable", "binary-tail"])
             stmts, toks, text, style = gen.render_doc(
-                rng, "default", max_stmts=rng.choice([1, 2, 4, 6]))
+                rng, "default", max_stmts=rng.choice([1, 2, 4, 6]),
+                extended=rng.random() < 0.3)
             data = text.encode()
             if kind == "corpus":
                 from .c06 import corpus
